@@ -14,6 +14,10 @@ func c14Expect(p *spec.C14Case) (class, detail string) {
 	if p.Conflict != "" {
 		return "MUST_FAIL_AT_START", "option:" + p.Conflict
 	}
+	if p.RawLine != "" {
+		// a plugin that prints a handshake line without (a true) multiplexing field while the host requests it
+		return "MUST_FAIL_AT_START", "mux"
+	}
 	allowed := p.Allowed
 	if allowed == nil {
 		allowed = []string{"netrpc"}
@@ -73,6 +77,12 @@ func c14Gen(r *rand.Rand, tier string) []spec.Case {
 	for _, cf := range []string{"cmd+reattach", "secure+reattach", "none-set"} {
 		add(spec.C14Case{Proto: "netrpc", ServerTLS: "none", ClientTLS: "none", Launch: "cmd", Conflict: cf})
 	}
+	// non-Go / old plugins that print shorter lines, multiplexing requested
+	for _, ln := range []string{"1|1|tcp|127.0.0.1:1|grpc", "1|1|tcp|127.0.0.1:1|grpc|", "1|1|tcp|127.0.0.1:1|grpc||false", "1|1|tcp|127.0.0.1:1|grpc||0", "1|1|unix|/nonexistent|grpc"} {
+		for _, la := range []string{"cmd", "runner"} {
+			add(spec.C14Case{Proto: "grpc", ServerTLS: "none", ClientTLS: "none", Mux: true, Launch: la, Allowed: []string{"netrpc", "grpc"}, RawLine: ln})
+		}
+	}
 	if tier == "thorough" {
 		for _, c := range all {
 			add(c)
@@ -112,8 +122,8 @@ func c14Judge(c spec.Case, evs []spec.Event, d *Death) CaseResult {
 	jsonUnmarshal(c.P, &p)
 	class, detail := c14Expect(&p)
 	res := CaseResult{Verdict: "held", Counters: map[string]int{}}
-	res.Class = fmt.Sprintf("%s:%s | %s s=%s c=%s mux=%v old=%v %s allowed=%v", class, detail, p.Proto, p.ServerTLS, p.ClientTLS, p.Mux, p.OldPlugin, p.Launch, p.Allowed)
-	cell := fmt.Sprintf("proto=%s serverTLS=%s clientTLS=%s mux=%v oldPlugin=%v launch=%s allowed=%v conflict=%s", p.Proto, p.ServerTLS, p.ClientTLS, p.Mux, p.OldPlugin, p.Launch, p.Allowed, p.Conflict)
+	res.Class = fmt.Sprintf("%s:%s | %s s=%s c=%s mux=%v old=%v %s allowed=%v raw=%q", class, detail, p.Proto, p.ServerTLS, p.ClientTLS, p.Mux, p.OldPlugin, p.Launch, p.Allowed, p.RawLine)
+	cell := fmt.Sprintf("proto=%s serverTLS=%s clientTLS=%s mux=%v oldPlugin=%v launch=%s allowed=%v conflict=%s rawLine=%q", p.Proto, p.ServerTLS, p.ClientTLS, p.Mux, p.OldPlugin, p.Launch, p.Allowed, p.Conflict, p.RawLine)
 	viol := func(key, msg string) {
 		res.Verdict = "violated"
 		res.Violations = append(res.Violations, Violation{Key: "C14:" + key, Msg: fmt.Sprintf("%s [expected %s:%s; cell %s]", msg, class, detail, cell)})
